@@ -280,7 +280,13 @@ fn big_apply(x: &[u64], op: &BigOp) -> BigOut {
     let r: Option<()> = match op {
         BigOp::SmallAdd(y) => bigint::small_add(&mut v, *y as Limb),
         BigOp::SmallMul(y) => bigint::small_mul(&mut v, *y as Limb),
-        BigOp::LargeAddFrom(y, start) => bigint::large_add_from(&mut v, &to_limbs(y), *start * RATIO),
+        BigOp::LargeAddFrom(y, start) => {
+            if *start == 0 {
+                bigint::large_add(&mut v, &to_limbs(y))
+            } else {
+                bigint::large_add_from(&mut v, &to_limbs(y), *start * RATIO)
+            }
+        }
         BigOp::LongMul(y) => match bigint::long_mul(&to_limbs(x), &to_limbs(y)) {
             Some(z) => {
                 v = z;
